@@ -73,3 +73,37 @@ func VP_C08_section() {
 	}
 	vp.Cover("end")
 }
+
+// vpVarInt5 is the (non-minimal) 5-byte encoding of v: any int32, fixed length.
+func vpVarInt5(v int32) []byte {
+	u := uint32(v)
+	return []byte{byte(u)&0x7F | 0x80, byte(u>>7)&0x7F | 0x80, byte(u>>14)&0x7F | 0x80, byte(u>>21)&0x7F | 0x80, byte(u>>28) & 0x0F}
+}
+
+// structured section encodings: every field of a section with single-value or
+// one-entry list palettes is arbitrary - block count, bits-per-entry bytes,
+// palette size and value, data length - followed by arbitrary bytes.
+func VP_C08_section_structured() {
+	vp.SizeBound(4)
+	var s []byte
+	cnt := vp.Uint16()
+	s = append(s, byte(cnt>>8), byte(cnt))
+	for k := 0; k < 2; k++ {
+		s = append(s, vp.Byte()) // bits per entry
+		if vp.Choice(2) == 0 {   // single value / first list field
+			s = append(s, vpVarInt5(vp.Int32())...)
+		} else { // declared list size, one value
+			s = append(s, vpVarInt5(vp.Int32())...)
+			s = append(s, vpVarInt5(vp.Int32())...)
+		}
+		s = append(s, vpVarInt5(vp.Int32())...) // data length
+	}
+	s = append(s, vp.Bytes(vp.Choice(2))...)
+	c := EmptyChunk(1)
+	if vp.Choice(2) == 0 {
+		c.Sections[0].ReadFrom(bytes.NewReader(s))
+	} else {
+		c.PutData(s)
+	}
+	vp.Cover("end")
+}
